@@ -370,4 +370,210 @@ def run(ctx, progs):
         r4_slow_path(ctx, P, D)
         from . import c15
         c15.r4_commit_forms(ctx, P, D, R="C01.R5")
+        r6r7_primitives(ctx, P)
     ctx.config = None
+
+
+# ------------------------------------------------------------------------------------------------- R6 / R7
+from ..sym import Sym, Unanalysable, ite_leaves
+
+
+def _sc(e):
+    while isinstance(e, tuple) and e and e[0] in ("cast", "ref", "deref"):
+        e = e[2] if e[0] == "cast" else e[1]
+    return e
+
+
+def _is_field(e, name):
+    e = _sc(e)
+    return e[0] == "field" and e[2] == name
+
+
+def _layout_fn(e, which):
+    e = _sc(e)
+    return e[0] == "call" and e[1] == "core::alloc::Layout::" + which and _is_field(e[2][0], "layout")
+
+
+def _align_arg_covers(a, want):
+    """alignment operand `a` is at least `want` ('layout' or 'min') by form"""
+    a = _sc(a)
+    if want == "layout" and _layout_fn(a, "align"):
+        return True
+    if want == "min" and _is_field(a, "min_align"):
+        return True
+    if a[0] == "call" and a[1].split("::")[-1] == "max":
+        return any(_align_arg_covers(x, want) for x in a[2])
+    return False
+
+
+def _aligned(e, want):
+    """expression is the result of an aligner whose modulus covers `want`"""
+    e = _sc(e)
+    if e[0] == "call" and e[1].split("::")[-1] in ("up_align_unchecked", "down_align") and len(e[2]) == 2:
+        return _align_arg_covers(e[2][1], want)
+    # NonZero payload of checked up_align: (up_align(x, a) as Some).0 .get()
+    if expr_mentions(e, lambda x: x[0] == "call" and x[1].split("::")[-1] == "up_align" and len(x[2]) == 2 and _align_arg_covers(x[2][1], want)) \
+            and e[0] in ("field", "downcast", "call"):
+        return True
+    # aligned_down + align  with aligned_down = (start - 1) & !(align - 1)
+    if e[0] == "bin" and e[1].startswith("Add"):
+        a, b = _sc(e[2]), _sc(e[3])
+        if want == "layout" and _layout_fn(b, "align") and a[0] == "bin" and a[1] == "BitAnd":
+            m = _sc(a[3])
+            if m[0] == "un" and m[1] == "Not" and _sc(m[2])[0] == "bin" and _sc(m[2])[1].startswith("Sub") and _layout_fn(_sc(m[2])[2], "align"):
+                return True
+    return False
+
+
+def _cond_true(conds, pred):
+    """some path condition satisfies pred(expr) with a true outcome (or its negation with false)"""
+    for c, k in conds:
+        c = _sc(c)
+        val = (k != "0")
+        if c[0] == "un" and c[1] == "Not":
+            c, val = _sc(c[2]), not val
+        r = pred(c)
+        if r is True and val:
+            return True
+        if r is False and not val:
+            return True
+    return False
+
+
+def _cmp(c, op, l, r):
+    """c is `l op r` (True) or the swapped/negated spelling (returns False meaning: holds when c is false)"""
+    c = _sc(c)
+    if c[0] != "bin":
+        return None
+    a, b = c[2], c[3]
+    swap = {"Lt": "Gt", "Gt": "Lt", "Le": "Ge", "Ge": "Le", "Eq": "Eq"}
+    neg = {"Lt": "Ge", "Gt": "Le", "Le": "Gt", "Ge": "Lt"}
+    if c[1] == op and l(a) and r(b):
+        return True
+    if c[1] == swap.get(op) and l(b) and r(a):
+        return True
+    if c[1] == neg.get(op) and l(a) and r(b):
+        return False
+    if c[1] == swap.get(neg.get(op, ""), "") and l(b) and r(a):
+        return False
+    return None
+
+
+def _consistent(conds):
+    seen = {}
+    for c, k in conds:
+        v = (k != "0")
+        if c in seen and seen[c] != v:
+            return False
+        seen[c] = v
+    return True
+
+
+def r6r7_primitives(ctx, P, R6="C01.R6", R7="C01.R7"):
+    ctx.rule(R6, "bump primitives: on every Some(..) path the returned pointer is produced by an aligner for layout.align() and the "
+                 "new position by an aligner for min_align, or the path carries the tabled elision predicate")
+    ctx.rule(R7, "bump primitives: every Some(..) path carries the negative outcome of a fit comparison against the range bound")
+    S = Sym(P, inline_depth=1, opaque_names={"up_align_unchecked", "down_align", "up_align", "debug_assert_valid", "cold"})
+    flag = lambda n: (lambda c: True if _is_field(c, n) else None)
+    al = lambda c: _layout_fn(c, "align")
+    sz = lambda c: _layout_fn(c, "size")
+    mn = lambda c: _is_field(c, "min_align")
+
+    def elide_layout_up(conds):
+        return _cond_true(conds, flag("align_is_const")) and _cond_true(conds, lambda c: _cmp(c, "Le", al, mn))
+
+    def elide_min(conds):
+        a = _cond_true(conds, flag("align_is_const")) and _cond_true(conds, flag("size_is_multiple_of_align")) and \
+            _cond_true(conds, lambda c: _cmp(c, "Ge", al, mn))
+        b = _cond_true(conds, flag("size_is_const")) and _cond_true(
+            conds, lambda c: True if (_sc(c)[0] == "bin" and _sc(c)[1] == "Eq" and _sc(_sc(c)[2])[0] == "bin" and _sc(_sc(c)[2])[1] == "Rem"
+                                      and sz(_sc(_sc(c)[2])[2]) and mn(_sc(_sc(c)[2])[3]) and _sc(_sc(c)[3]) == ("int", 0, "usize")) else None)
+        return a or b
+
+    def elide_layout_down(conds):
+        return _cond_true(conds, flag("size_is_multiple_of_align")) and _cond_true(conds, flag("align_is_const")) and \
+            _cond_true(conds, lambda c: _cmp(c, "Le", al, mn))
+
+    def fit(conds, value_exprs):
+        # negative outcome of: bound < candidate | size > remaining
+        def is_rem(x):
+            x = _sc(x)
+            return x[0] == "call" and x[1].split("::")[-1] == "wrapping_sub"
+
+        def pr(c):
+            c = _sc(c)
+            if c[0] != "bin" or c[1] not in ("Lt", "Gt", "Le", "Ge"):
+                return None
+            a, b = _sc(c[2]), _sc(c[3])
+            m_end = lambda x: expr_mentions(x, lambda y: y[0] == "field" and y[2] in ("end", "start") and expr_mentions(y, lambda z: z[0] == "param"))
+            if (is_rem(a) or is_rem(b)) and (expr_mentions(a, lambda y: sz(y)) or expr_mentions(b, lambda y: sz(y))):
+                # size > remaining  (must be false)
+                if c[1] == "Gt" and expr_mentions(a, lambda y: sz(y)):
+                    return False
+                if c[1] == "Lt" and expr_mentions(b, lambda y: sz(y)):
+                    return False
+                return None
+            if m_end(a) and m_end(b):
+                # one side is a bare bound (props.end / props.start), the other the candidate
+                bare_a = a[0] == "field"
+                bare_b = b[0] == "field"
+                if bare_a != bare_b or (bare_a and bare_b):
+                    # `end < new_pos` / `new_pos > end` / `end' < start` / `start' > end` must be false
+                    if c[1] in ("Lt", "Gt"):
+                        return False
+            return None
+        return _cond_true(conds, pr)
+
+    n6 = n7 = 0
+    for nm in ("bump_up", "bump_down", "bump_prepare_up", "bump_prepare_down"):
+        it = P.find("bumping::" + nm)
+        if not ctx.need(it is not None, R6, "bumping::" + nm):
+            continue
+        b = P.body(it["id"])
+        try:
+            e = S.ret(it["id"])
+        except Unanalysable as ex:
+            ctx.inst(R6, b.path, False, f"not analysable: {ex}", where=b.where(), site="avn")
+            continue
+        leaves = [(c, l) for c, l in ite_leaves(e) if l[0] == "agg" and l[2] == "Some" and _consistent(c)]
+        ctx.need(len(leaves) >= 2, R6, f"{nm}: Some(..) return paths")
+        bad6, bad7 = [], []
+        for conds, leaf in leaves:
+            v = leaf[4][0]
+            if nm == "bump_up":
+                v = _sc(v)
+                new_pos, ptr = v[4][v[3].index("new_pos")], v[4][v[3].index("ptr")]
+                ok_ptr = _aligned(ptr, "layout") or elide_layout_up(conds)
+                ok_pos = _aligned(new_pos, "min") or elide_min(conds)
+                vals = [new_pos, ptr]
+            elif nm == "bump_down":
+                ok_ptr = _aligned(v, "layout") or elide_layout_down(conds)
+                ok_pos = _aligned(v, "min") or elide_min(conds)
+                vals = [v]
+            else:
+                v = _sc(v)
+                st, en = v[4][v[3].index("start")], v[4][v[3].index("end")]
+                if nm == "bump_prepare_up":
+                    ok_ptr = (_aligned(st, "layout") or elide_layout_up(conds)) and _aligned(en, "layout")
+                else:
+                    ok_ptr = (_aligned(en, "layout") or elide_layout_up(conds)) and _aligned(st, "layout")
+                ok_pos = True
+                vals = [st, en]
+            n6 += 1
+            if not (ok_ptr and ok_pos):
+                bad6.append((conds, leaf, ok_ptr, ok_pos))
+            n7 += 1
+            if not fit(conds, vals):
+                bad7.append((conds, leaf))
+        for conds, leaf, okp, okn in bad6[:3]:
+            what = ("the returned block" if not okp else "") + (" and " if not okp and not okn else "") + ("the new position" if not okn else "")
+            ctx.inst(R6, b.path, False, f"a success path returns {show(leaf)[:140]} where {what} is neither produced by a covering aligner nor "
+                     f"excused by the tabled elision predicate; path: " + " & ".join(f"{show(c)[:40]}={k}" for c, k in conds)[:300],
+                     where=b.where(), site=f"unaligned path {'ptr' if not okp else ''}{'pos' if not okn else ''}")
+        for conds, leaf in bad7[:3]:
+            ctx.inst(R7, b.path, False, f"a success path returns {show(leaf)[:120]} without a fit comparison against the range bound: a block "
+                     "beyond the chunk (or from a dummy chunk) would be handed out; path: " +
+                     " & ".join(f"{show(c)[:40]}={k}" for c, k in conds)[:300], where=b.where(), site="no fit test")
+        ctx.inst(R6, b.path, not bad6, f"{len(leaves)} consistent Some(..) paths: every one aligns (or carries the elision predicate)", where=b.where(), site="all paths aligned")
+        ctx.inst(R7, b.path, not bad7, f"{len(leaves)} consistent Some(..) paths: every one passed a fit test", where=b.where(), site="all paths fit-tested")
+    ctx.floor(R6, "success paths of the bump primitives", n6, 20)
